@@ -12,5 +12,5 @@ import BufProofs.Props.C17
 #print axioms BufProofs.C17.writes_under_out
 #print axioms BufProofs.C17.insertion_same_run_only
 #print axioms BufProofs.C17.insertion_needs_target
-#print axioms BufProofs.C17.duplicate_output_is_error_partial
+#print axioms BufProofs.C17.duplicate_output_is_error
 #print axioms BufProofs.C17.duplicate_alias_counterexample
